@@ -235,6 +235,20 @@ const TEXTS: [&str; 22] = [
     "", "plain text", "!native", "[[x", "[=[x", "[x", "x]", "a]]b", "a]=]b", "line1\nline2", "a\rb", "a\r\nb", "-- dashes", "[[\n]]", "]]\n[[", "é à", "]", "[", "\n", "x\n", "]=", "a\n]=]\n]]",
 ];
 
+/// the text between the delimiters of a comment (`--text`, `--[==[text]==]`)
+fn comment_body(c: &str) -> &str {
+    let rest = c.strip_prefix("--").unwrap_or(c);
+    if let Some(r) = rest.strip_prefix('[') {
+        let eq = r.bytes().take_while(|b| *b == b'=').count();
+        if r[eq..].starts_with('[') {
+            let inner = &r[eq + 1..];
+            let close = format!("]{}]", "=".repeat(eq));
+            return inner.strip_suffix(close.as_str()).unwrap_or(inner);
+        }
+    }
+    rest
+}
+
 fn gen_source(t: &mut Tape) -> (String, usize) {
     match t.weighted(&[2, 8]) {
         0 => {
@@ -372,6 +386,14 @@ fn run(ctx: &RunCtx) {
         let rules = gen_rules(&mut t);
         if avoid_brackets && crate::props::c03::has_adjacent_closing_brackets(&source) {
             return CaseResult::Discard("avoided: known finding adjacent-closing-brackets");
+        }
+        if let Ok(l) = lex(&source, Mode::Luau) {
+            // an appended text equal to the body of a comment the file already has: the oracle cannot
+            // tell which of the two identical comments is the appended one (harness limit, not a finding)
+            let collides = rules.iter().any(|r| matches!(r, RuleSpec::Append { text, .. } if l.comments.iter().any(|c| comment_body(&c.text) == text.as_str())));
+            if collides {
+                return CaseResult::Discard("appended text equals the body of an existing comment");
+            }
         }
         if avoid_ellipsis && crate::props::c03::has_comment_next_to_type_ellipsis(&source) {
             return CaseResult::Discard("avoided: known finding pack-ellipsis-trivia");
